@@ -1,0 +1,15 @@
+//go:build verif
+
+package gtree
+
+import "sync/atomic"
+
+// VerifHook is test instrumentation compiled in only with the build tag "verif": when set, it is called with the name
+// of each pipeline hand-over point so that a harness can inject delays / yields and record which points were reached.
+var VerifHook atomic.Pointer[func(point string)]
+
+func verifPoint(p string) {
+	if f := VerifHook.Load(); f != nil {
+		(*f)(p)
+	}
+}
